@@ -26,7 +26,7 @@ var stdWithSource = []string{
 	"strings", "strconv", "internal/strconv", "internal/stringslite", "internal/bytealg",
 	"path", "bytes", "unicode", "unicode/utf8", "slices", "sort", "cmp", "maps", "iter",
 	"errors", "io", "math/bits", "encoding/hex", "encoding/base64", "encoding/binary",
-	"internal/byteorder", "net",
+	"internal/byteorder", "net", "net/url",
 }
 
 var repoPkgs = []string{
